@@ -77,6 +77,14 @@ CHECKS = [
      'note': 'trusted: NumPy contraction of site tensors via to_numpy(legs=) and legs_union; default_fusion=meta is not exercised at the '
              'MPS level (the MPS layer rejects meta-fused virtual legs, as the repository suite shows); conjugated/transposed objects are '
              'combined only in signature-neutral pairs because conj()/T change leg signatures'},
+    {'id': 'C07',
+     'technique': 'exhaustive on-site algebra + Hypothesis-generated Hterm lists, grammar-generated LaTeX strings and measurement requests compared with an independent dense Jordan-Wigner reference',
+     'text': 'On-site (anti)commutation / su(2) relations and named eigenvectors of every operator family x symmetry are enumerated; '
+             'generate_mpo (operators in any order, repeated sites, charged terms with a common charge, complex amplitudes, f_map, three '
+             'forms of I; unequal charges must raise) and Generator.mpo_from_latex (documented forms, custom site maps) equal the sum of '
+             'NumPy JW products; measure_1site/2site (all bond strings, explicit bonds, dict operators)/nsite, rdm (any site order, against '
+             'fkron traces and partial traces) and sample probabilities equal dense expectation values on random states of every admissible charge.',
+     'note': 'trusted: vlib/jw.py (standard JW convention) and the NumPy MPS contraction; one open known finding on the LaTeX parser scope'},
     {'id': 'C13',
      'technique': 'Hypothesis-generated spectra and limit combinations checked with a validity predicate derived from the documented two-stage rule; error identity on generated factorisations',
      'text': 'Diagonal spectra with ties, zeros, one-element sectors over 1-5 sectors and every combination of D_total, D_block (scalar/dict), '
